@@ -210,4 +210,165 @@ theorem mergeContainers_false_blocks (bm : List (Nat × List Nat)) :
       | none => simp
       | some bs => simp [prefixBlocks, List.append_assoc]
 
+/-! ### the scanners' cursor inside one container -/
+
+/-- cursor invariant of one scanner inside container `h`: `rem` = the (low key, value id) pairs of its
+container not yet visited; the unread rest of `tagValueIDs` are their values; every low key already
+passed is smaller than every low key still to come (`ls`); the remaining ones are ascending and all
+of them will be visited -/
+def CurOK (h : Nat) (s : MScan) (rem : List (Nat × ValId)) (ls : List Nat) : Prop :=
+  s.high = h ∧ ∃ pre : List Nat, s.lows = some (pre ++ rem.map (·.1)) ∧ s.rest = rem.map (·.2) ∧
+    (∀ x ∈ pre, ∀ l ∈ ls, x < l) ∧ (rem.map (·.1)).Pairwise (· < ·) ∧ (∀ x ∈ rem.map (·.1), x ∈ ls)
+
+def remAfter (l : Nat) : List (Nat × ValId) → List (Nat × ValId)
+  | [] => []
+  | (r, v) :: t => if r = l then t else (r, v) :: t
+
+def emitted (l : Nat) : List (Nat × ValId) → List ValId
+  | [] => []
+  | (r, v) :: _ => if r = l then [v] else []
+
+theorem scanCur_step {h l : Nat} {ls' : List Nat} {s : MScan} {rem : List (Nat × ValId)} (buf : List ValId)
+    (hp : (l :: ls').Pairwise (· < ·)) (hc : CurOK h s rem (l :: ls')) :
+    ∃ s', s.scanCur h l buf = some (s', buf ++ emitted l rem) ∧ CurOK h s' (remAfter l rem) ls' := by
+  obtain ⟨hh, pre, hl, hr, hpre, hpw, hsub⟩ := hc
+  have hlpre : l ∉ pre := fun hm => Nat.lt_irrefl l (hpre l hm l (by simp))
+  have hlt : ∀ l' ∈ ls', l < l' := (List.pairwise_cons.mp hp).1
+  cases rem with
+  | nil =>
+    refine ⟨s, ?_, hh, pre, hl, hr, fun x hx l' hl' => hpre x hx l' (List.mem_cons_of_mem _ hl'), by simp [remAfter], by simp [remAfter]⟩
+    unfold MScan.scanCur
+    simp [hh, hl, hlpre, emitted]
+  | cons rv t =>
+    obtain ⟨r, v⟩ := rv
+    have hrin : r ∈ l :: ls' := hsub r (by simp)
+    have hpw' := List.pairwise_cons.mp hpw
+    by_cases hrl : r = l
+    · subst hrl
+      refine ⟨{ s with rest := t.map (·.2) }, ?_, hh, pre ++ [r], ?_, by simp [remAfter], ?_, by simpa [remAfter] using hpw'.2, ?_⟩
+      · unfold MScan.scanCur
+        simp [hh, hl, hr, emitted]
+      · simp [hl, remAfter]
+      · intro x hx l' hl'
+        rcases List.mem_append.mp hx with hx | hx
+        · exact hpre x hx l' (List.mem_cons_of_mem _ hl')
+        · simp at hx; subst hx; exact hlt l' hl'
+      · intro x hx
+        simp only [remAfter, if_true] at hx
+        have h1 : r < x := hpw'.1 x hx
+        have h2 : x ∈ r :: ls' := hsub x (by simp at hx ⊢; exact Or.inr hx)
+        rcases List.mem_cons.mp h2 with h2 | h2
+        · omega
+        · exact h2
+    · have hrls : r ∈ ls' := by
+        rcases List.mem_cons.mp hrin with h1 | h1
+        · exact absurd h1 hrl
+        · exact h1
+      have hlr : l < r := hlt r hrls
+      have hnot : l ∉ ((r, v) :: t).map (·.1) := by
+        intro hm
+        have hm' : l = r ∨ l ∈ t.map (·.1) := by simpa using hm
+        rcases hm' with hm | hm
+        · omega
+        · have h9 : r < l := hpw'.1 l hm
+          omega
+      refine ⟨s, ?_, hh, pre, ?_, ?_, fun x hx l' hl' => hpre x hx l' (List.mem_cons_of_mem _ hl'), ?_, ?_⟩
+      · unfold MScan.scanCur
+        have : l ∉ pre ++ ((r, v) :: t).map (·.1) := by
+          intro hm; rcases List.mem_append.mp hm with hm | hm
+          · exact hlpre hm
+          · exact hnot hm
+        have hc : (pre ++ ((r, v) :: t).map (·.1)).contains l = false := by
+          simpa using this
+        simp only [hh, hl, bne_self_eq_false, Bool.false_eq_true, if_false, hc, emitted, hrl, List.append_nil]
+      · simpa [remAfter, hrl] using hl
+      · simpa [remAfter, hrl] using hr
+      · simpa [remAfter, hrl] using hpw
+      · intro x hx
+        simp only [remAfter, hrl, if_false] at hx
+        have h2 := hsub x hx
+        rcases List.mem_cons.mp h2 with h2 | h2
+        · subst h2; exact absurd hx hnot
+        · exact h2
+
+
+theorem scan_eq_scanCur {h : Nat} {s : MScan} (hh : s.high = h) (l : Nat) (buf : List ValId) :
+    s.scan h l buf = s.scanCur h l buf := by
+  unfold MScan.scan
+  simp [hh]
+
+/-- a scanner that has nothing for container `h`: it stands on a later container, or the reader has no
+container with this high key -/
+def Idle (h : Nat) (s : MScan) : Prop := h < s.high ∨ (s.high = h ∧ s.lows = none)
+
+/-- state of a scanner inside the scan of container `h` -/
+def ScanOK (h : Nat) (s : MScan) (rem : List (Nat × ValId)) (ls : List Nat) : Prop :=
+  CurOK h s rem ls ∨ (Idle h s ∧ rem = [])
+
+theorem scan_idle {h : Nat} {s : MScan} (hi : Idle h s) (l : Nat) (buf : List ValId) :
+    s.scan h l buf = some (s, buf) := by
+  unfold MScan.scan MScan.scanCur
+  rcases hi with hi | ⟨h1, h2⟩
+  · have h1 : ¬ s.high < h := by omega
+    have h2 : (h != s.high) = true := by simp; omega
+    simp [h1, h2]
+  · simp [h1, h2]
+
+theorem scan_step {h l : Nat} {ls' : List Nat} {s : MScan} {rem : List (Nat × ValId)} (buf : List ValId)
+    (hp : (l :: ls').Pairwise (· < ·)) (hc : ScanOK h s rem (l :: ls')) :
+    ∃ s', s.scan h l buf = some (s', buf ++ emitted l rem) ∧ ScanOK h s' (remAfter l rem) ls' := by
+  rcases hc with hc | ⟨hi, rfl⟩
+  · obtain ⟨s', hs, hc'⟩ := scanCur_step buf hp hc
+    exact ⟨s', by rw [scan_eq_scanCur hc.1, hs], Or.inl hc'⟩
+  · exact ⟨s, by simp [scan_idle hi, emitted], Or.inr ⟨hi, by simp [remAfter]⟩⟩
+
+/-- one low key through all scanners -/
+theorem scanAll_step {h l : Nat} {ls' : List Nat} (hp : (l :: ls').Pairwise (· < ·)) :
+    ∀ (srs : List (MScan × List (Nat × ValId))) (buf : List ValId),
+      (∀ sr ∈ srs, ScanOK h sr.1 sr.2 (l :: ls')) →
+      ∃ srs' : List (MScan × List (Nat × ValId)),
+        scanAll h l (srs.map (·.1)) buf = some (srs'.map (·.1), buf ++ srs.flatMap (fun sr => emitted l sr.2)) ∧
+        srs'.map (·.2) = srs.map (fun sr => remAfter l sr.2) ∧ (∀ sr ∈ srs', ScanOK h sr.1 sr.2 ls') := by
+  intro srs
+  induction srs with
+  | nil => intro buf _; exact ⟨[], by simp [scanAll], rfl, by simp⟩
+  | cons sr t ih =>
+    intro buf hall
+    obtain ⟨s, rem⟩ := sr
+    have hc : ScanOK h s rem (l :: ls') := hall (s, rem) (by simp)
+    obtain ⟨s', hs, hc'⟩ := scan_step buf hp hc
+    obtain ⟨t', ht, hmap, hall'⟩ := ih (buf ++ emitted l rem) (fun sr hm => hall sr (List.mem_cons_of_mem _ hm))
+    refine ⟨(s', remAfter l rem) :: t', ?_, by simp [hmap], ?_⟩
+    · simp only [List.map_cons, scanAll]
+      rw [hs]
+      simp only []
+      rw [ht]
+      simp [List.append_assoc]
+    · intro sr hm
+      rcases List.mem_cons.mp hm with hm | hm
+      · subst hm; exact hc'
+      · exact hall' sr hm
+
+/-- what the scan of one merged container appends: low key by low key, scanner by scanner, the value
+id the scanner's container pairs with that low key (pure function of the containers' contents) -/
+def blockSpec : List Nat → List (List (Nat × ValId)) → List ValId
+  | [], _ => []
+  | l :: ls, rems => rems.flatMap (emitted l) ++ blockSpec ls (rems.map (remAfter l))
+
+/-- **the cursor-level scan of one container computes `blockSpec`** -/
+theorem scanLows_spec {h : Nat} : ∀ (ls : List Nat) (srs : List (MScan × List (Nat × ValId))) (buf : List ValId),
+    ls.Pairwise (· < ·) → (∀ sr ∈ srs, ScanOK h sr.1 sr.2 ls) →
+    ∃ ss', scanLows h ls (srs.map (·.1)) buf = some (ss', buf ++ blockSpec ls (srs.map (·.2))) := by
+  intro ls
+  induction ls with
+  | nil => intro srs buf _ _; exact ⟨srs.map (·.1), by simp [scanLows, blockSpec]⟩
+  | cons l ls' ih =>
+    intro srs buf hp hall
+    obtain ⟨srs', hs, hmap, hall'⟩ := scanAll_step hp srs buf hall
+    obtain ⟨ss', hss⟩ := ih srs' (buf ++ srs.flatMap (fun sr => emitted l sr.2)) (List.pairwise_cons.mp hp).2 hall'
+    refine ⟨ss', ?_⟩
+    simp only [scanLows, hs]
+    rw [hss, hmap]
+    simp [blockSpec, List.flatMap_map, List.append_assoc, List.map_map, Function.comp_def]
+
 end LinVerif.TagFilter
